@@ -85,6 +85,18 @@ def run(tier):
         metas.update(ms)
         n_closure += len(cp)
     rejects, stats = validate('traces/RulesTrace.tla', events, 'c03', per_shard=15000, env={'AUX_FILE': rules.aux_file()})
+    from ..trace import binding_demo
+
+    def flip_head(e):
+        if e['e'] == 'bin' and e['res']:
+            e['res'][0]['hl'] = not e['res'][0]['hl']
+            return e
+
+    def wrong_cat(e):
+        if e['e'] == 'bin' and e['res'] and e['res'][0]['c']['k'] == 'F':
+            e['res'][0]['c'] = e['res'][0]['c']['l']
+            return e
+    demo = binding_demo('traces/RulesTrace.tla', events, [('head_flag_flipped', flip_head), ('result_replaced_by_its_left_part', wrong_cat)], 'c03', env={'AUX_FILE': rules.aux_file()})
     viols = []
     for (i, clause) in rejects:
         if not clause.startswith('C03.'):
@@ -99,6 +111,7 @@ def run(tier):
         'states': states + stats.states,
         'transitions': trans + stats.transitions,
         'traces_validated_against_impl': len(events),
+        'binding_demonstration': demo,
         'exhaustive': tier == 'thorough',
         'events': {'tlc_vectors_replayed': n_tlc, 'tlc_vectors_with_required_results': n_must, 'inventory_and_test_pairs': len(pairs) - n_tlc,
                    'closure_pairs': n_closure, 'results_by_label': by_label,
